@@ -340,7 +340,7 @@ static unsigned char *TPMLIB_OpenSSL_Base64Decode(char *input,
     }
 
     n = BIO_read(bmem, res, outputlen);
-    if (n <= 0) {
+    if (n <= 0 || (unsigned int)n != outputlen) {
         free(res);
         res = NULL;
         goto cleanup;
